@@ -281,6 +281,51 @@ type LongS struct {
 	C []uint16 `serix:",lenPrefix=uint32"`
 }
 
+// types with registered syntactic validators (value and pointer argument), reached through
+// pointers as optional / non-optional fields, slice elements (with array rules incl. MustOccur
+// and uniqueness), map values and top-level destinations
+type (
+	Num       uint32
+	CodedPtrs []*Coded        // lenPrefix uint8, MustOccur Coded's object code, no duplicates
+	PointPtrs []*Point        // lenPrefix uint8, lexical order
+	VMap      map[NStr]*Point // lenPrefix uint8
+	VShapeMap map[NStr]Shape  // lenPrefix uint8
+)
+
+type VItem struct {
+	A uint8 `serix:""`
+	B NStr  `serix:""`
+}
+
+type Valid struct {
+	P  *Point      `serix:",optional"`
+	Q  *Point      `serix:""`
+	I  *VItem      `serix:",optional"`
+	J  *VItem      `serix:""`
+	A  *Key4       `serix:",optional"`
+	U  *U32Arr     `serix:""`
+	C  *Circle     `serix:",optional"`
+	S  Shape       `serix:",optional"`
+	Cs CodedPtrs   `serix:""`
+	Ps PointPtrs   `serix:""`
+	Is []*VItem    `serix:",lenPrefix=uint8"`
+	M  VMap        `serix:""`
+	MS VShapeMap   `serix:""`
+	L  ShapeList   `serix:""`
+	PL PayloadList `serix:""`
+}
+
+// pointers to slice / map / named primitive pointees (serix supports them in the binary form only)
+type ValidX struct {
+	L *U16List `serix:",optional"`
+	M *MapU8   `serix:",optional"`
+	N *Num     `serix:",optional"`
+	S *NStr    `serix:",optional"`
+	B *Blob    `serix:",optional"`
+}
+
+var validatorCalls int
+
 type Outer struct {
 	P  Prims       `serix:""`
 	S  Slices      `serix:""`
@@ -367,6 +412,40 @@ func newUniverse() *universe {
 		Min: 1, MustOccur: serializer.TypePrefixes{1: struct{}{}}, ValidationMode: serializer.ArrayValidationModeAtMostOneOfEachTypeUint32})))
 	must(api.RegisterTypeSettings(Coded{}, ts.WithObjectType(uint32(0xC0DE))))
 
+	must(api.RegisterTypeSettings(CodedPtrs{}, ts.WithLengthPrefixType(lp8).WithArrayRules(&serix.ArrayRules{
+		Max: 4, MustOccur: serializer.TypePrefixes{0xC0DE: struct{}{}}, ValidationMode: serializer.ArrayValidationModeNoDuplicates})))
+	must(api.RegisterTypeSettings(PointPtrs{}, ts.WithLengthPrefixType(lp8).WithArrayRules(&serix.ArrayRules{
+		ValidationMode: serializer.ArrayValidationModeLexicalOrdering})))
+	must(api.RegisterTypeSettings(VMap{}, ts.WithLengthPrefixType(lp8)))
+	must(api.RegisterTypeSettings(VShapeMap{}, ts.WithLengthPrefixType(lp8)))
+	// syntactic validators: they accept everything except one rare value, and count their calls
+	must(api.RegisterValidator(Point{}, func(_ context.Context, p Point) error {
+		validatorCalls++
+		if p.X == 0x0BADF00D {
+			return errors.New("Point: rejected by validator")
+		}
+		return nil
+	}))
+	must(api.RegisterValidator(&VItem{}, func(_ context.Context, v *VItem) error {
+		validatorCalls++
+		if v == nil || v.A == 0xEE {
+			return errors.New("VItem: rejected by validator")
+		}
+		return nil
+	}))
+	must(api.RegisterValidator(Circle{}, func(_ context.Context, c Circle) error { validatorCalls++; return nil }))
+	must(api.RegisterValidator(Coded{}, func(_ context.Context, c Coded) error { validatorCalls++; return nil }))
+	must(api.RegisterValidator(Key4{}, func(_ context.Context, k Key4) error { validatorCalls++; return nil }))
+	must(api.RegisterValidator(U32Arr{}, func(_ context.Context, a U32Arr) error { validatorCalls++; return nil }))
+	must(api.RegisterValidator(U16List{}, func(_ context.Context, l U16List) error { validatorCalls++; return nil }))
+	must(api.RegisterValidator(MapU8{}, func(_ context.Context, m MapU8) error { validatorCalls++; return nil }))
+	must(api.RegisterValidator(Num(0), func(_ context.Context, n Num) error { validatorCalls++; return nil }))
+	must(api.RegisterValidator(NStr(""), func(_ context.Context, n NStr) error { validatorCalls++; return nil }))
+	must(api.RegisterValidator(Blob{}, func(_ context.Context, b Blob) error { validatorCalls++; return nil }))
+	must(api.RegisterValidator(ID8{}, func(_ context.Context, b ID8) error { validatorCalls++; return nil }))
+	must(api.RegisterValidator(PayA{}, func(_ context.Context, b PayA) error { validatorCalls++; return nil }))
+	must(api.RegisterValidator(Valid{}, func(_ context.Context, v Valid) error { validatorCalls++; return nil }))
+
 	add := func(name string, zero any, json bool) {
 		t := reflect.TypeOf(zero)
 		tg := &target{name: name, typ: t, json: json, entry: "serix.Decode"}
@@ -407,6 +486,15 @@ func newUniverse() *universe {
 	add("Coded", Coded{}, true)
 	add("PtrArr", PtrArr{}, true)
 	add("ByteArrs", ByteArrs{}, true)
+	add("Valid", Valid{}, true)
+	add("ValidX", ValidX{}, true)
+	add("VMap", VMap{}, true)
+	add("VShapeMap", VShapeMap{}, true)
+	add("PtrPoint", (*Point)(nil), true)
+	add("PtrVItem", (*VItem)(nil), true)
+	add("PtrKey4", (*Key4)(nil), false)
+	add("CodedPtrs", CodedPtrs{}, false)
+	add("PointPtrs", PointPtrs{}, false)
 	add("LongS", LongS{}, true)
 	add("LBytes16", LBytes16{}, false)
 	add("LBytes32", LBytes32{}, false)
